@@ -16,7 +16,8 @@ LEVEL = "exploration"
 TECHNIQUE = "differential monitor across interpreter processes: SHA-256 of env.compile(src, raw=True) under several PYTHONHASHSEED values and repeated in-process"
 RULE = ("generated templates (corpus programs + name-rich templates with tuple assignment, branch "
         "stores, many filters/tests, from-imports with context, includes inside scopes with many "
-        "locals, macros using varargs/kwargs/caller) compiled in child processes with PYTHONHASHSEED "
+        "locals, macros using varargs/kwargs/caller; half of them with identifiers that differ only in "
+        "case) compiled in child processes with PYTHONHASHSEED "
         "in {0,1,2,3,random} (+4 more in thorough) and twice in-process, in sync/async/sandboxed "
         "environments; all digests per template must be equal. distinct = distinct template sources "
         "with >= 3 distinct stored names or >= 3 filters/tests")
@@ -40,6 +41,10 @@ TESTS = ["odd", "even", "defined", "undefined", "none", "string", "number", "map
 
 def det_template(rng):
     ns = rng.sample(NAMES, 12)
+    if rng.random() < 0.5:
+        # names that differ only in case (distinct identifiers; equal under case-folding keys)
+        ns[1], ns[2] = ns[0].capitalize(), ns[0].upper()
+        ns[5], ns[6] = ns[4].upper(), ns[4].capitalize()
     parts = []
     parts.append("{%% set %s, %s, %s = 1, 2, 3 %%}" % tuple(ns[:3]))
     parts.append("{%% if %s %%}{%% set %s = 1 %%}{%% set %s = 2 %%}{%% set %s = 5 %%}{%% elif %s %%}"
